@@ -166,7 +166,10 @@ class Interp:
                 defaults = fi.real.__defaults__ or ()
                 kwdefaults = fi.real.__kwdefaults__ or {}
             else:
-                defaults, kwdefaults = (), {}
+                # no real function object (generated source): evaluate the default expressions in the module namespace
+                gfr = Frame(fi)
+                defaults = tuple(self.eval(d, gfr) for d in a.defaults)
+                kwdefaults = {p.arg: self.eval(d, gfr) for p, d in zip(a.kwonlyargs, a.kw_defaults) if d is not None}
         kwargs = dict(kwargs)
         args = list(args)
         n = len(params)
@@ -662,10 +665,11 @@ class Interp:
                         raise OutOfSubset(f'local {name!r} may be unbound after a loop cut (line {getattr(node, "lineno", "?")})')
                     break
                 return v
-            if first and name in self._local_names(f):
+            if first and not getattr(f, 'is_comp', False) and name in self._local_names(f):
                 # a local of this function that is not bound on this path
                 self.raise_(UnboundLocalError, f'{name}@L{getattr(node, "lineno", 0)}', real_args=(name,))
-            first = False
+            if not getattr(f, 'is_comp', False):
+                first = False
             f = f.parent
         else:
             if name in fr.globals:
@@ -1007,6 +1011,8 @@ class Interp:
             return self.lib.call_method(self, func.recv, func.name, args, kwargs, node)
         if isinstance(func, Sym):
             raise OutOfSubset(f'call of a symbolic value {func!r}')
+        if hasattr(func, 'vc_call'):
+            return func.vc_call(self, args, kwargs, node)
         # real callable
         if not contains_sym(args) and not contains_sym(kwargs):
             fi = from_real(func) if (inspect.isfunction(func) and not self.concrete) else None
@@ -1080,6 +1086,12 @@ class Interp:
             return self.call_function(fi, [obj], {}, self_obj=obj)
         if name in obj.fields:
             return obj.fields[name]
+        if name.startswith('_') and obj.varstore is not None and name[1:] in getattr(obj, 'known_vars', ()):
+            vv = obj.varstore.view(z3.StringVal(name[1:]))
+            hook = getattr(obj, 'on_var_access', None)
+            if hook is not None:
+                vv = hook(name[1:], vv)
+            return vv
         if static is not _MISSING:
             return self.lookup_class_attr(obj, name, node=node)
         ga = self._static_attr(obj.cls, '__getattr__')
